@@ -1,9 +1,870 @@
-//! Tables: exports, safe wrappers, dispatch macro, features (filled in below).
+//! Tables: exports, export/safe macro arms, dispatch macro, impl call graph, intrinsic features,
+//! external references, statics.
+use std::collections::{BTreeMap, BTreeSet};
+use std::fs;
 use std::path::Path;
 
+use proc_macro2::{Delimiter, TokenStream, TokenTree};
+use quote::ToTokens;
+use syn::spanned::Spanned;
+
+use crate::body::*;
+use crate::cfgpred::*;
 use crate::impls::ImplInfo;
-use crate::Output;
+use crate::items::*;
+use crate::macros::*;
+use crate::ty::*;
+use crate::{load, Output, Source};
 
-pub fn gen_tables(_root: &Path, _out: &mut Output, _harness_dir: &Path) {}
+fn tok(t: &impl ToTokens) -> String {
+    t.to_token_stream().to_string()
+}
 
-pub fn gen_impl_tables(_infos: &[ImplInfo], _out: &mut Output) {}
+fn lstr(s: &str) -> String {
+    format!("\"{}\"", s.replace('\\', "\\\\").replace('"', "\\\""))
+}
+
+fn llist(v: &[String]) -> String {
+    format!("[{}]", v.join(", "))
+}
+
+fn lstrs(v: &[String]) -> String {
+    llist(&v.iter().map(|s| lstr(s)).collect::<Vec<_>>())
+}
+
+/// emit `def <name> : List <ty> := chunk0 ++ chunk1 ++ ..` with 40-row chunks
+fn chunked(name: &str, ty: &str, rows: &[String]) -> String {
+    let mut s = String::new();
+    let mut chunks = vec![];
+    for (k, c) in rows.chunks(40).enumerate() {
+        let cn = format!("{name}_chunk{k}");
+        s.push_str(&format!("def {cn} : List {ty} := [\n  {}\n]\n", c.join(",\n  ")));
+        chunks.push(cn);
+    }
+    if chunks.is_empty() {
+        s.push_str(&format!("def {name} : List {ty} := []\n"));
+    } else {
+        s.push_str(&format!("def {name}_chunks : List (List {ty}) := [{}]\n", chunks.join(", ")));
+        s.push_str(&format!("def {name} : List {ty} := {name}_chunks.flatten\n"));
+    }
+    s
+}
+
+fn split_commas(ts: TokenStream) -> Vec<Vec<TokenTree>> {
+    let mut out = vec![vec![]];
+    for t in ts {
+        match &t {
+            TokenTree::Punct(p) if p.as_char() == ',' => out.push(vec![]),
+            _ => out.last_mut().unwrap().push(t),
+        }
+    }
+    if out.last().map(|v| v.is_empty()).unwrap_or(false) {
+        out.pop();
+    }
+    out
+}
+
+fn tts_string(v: &[TokenTree]) -> String {
+    v.iter().map(|t| t.to_string()).collect::<Vec<_>>().join(" ")
+}
+
+fn norm(s: &str) -> String {
+    s.replace(' ', "")
+}
+
+// --------------------------------------------------------------------------- export invocations
+
+pub struct ExportRow {
+    pub mac: String,
+    pub ty: String,
+    pub reg: String,
+    pub op: String,
+    pub xconst: String,
+    pub xany: String,
+    pub features: Option<Vec<String>>,
+    pub module: String,
+    pub module_cfg: Option<CfgPred>,
+    pub file: String,
+    pub line: usize,
+}
+
+fn parse_export_invocation(m: &syn::Macro) -> Option<(BTreeMap<String, String>, Option<Vec<String>>)> {
+    let mut kv = BTreeMap::new();
+    let mut features = None;
+    let parts = split_commas(m.tokens.clone());
+    let mut i = 0;
+    while i < parts.len() {
+        let p = &parts[i];
+        if p.len() >= 3 {
+            let key = p[0].to_string();
+            if key == "features" {
+                // features = "a", "b" : the remaining comma-separated parts are features too
+                let mut fs = vec![tts_string(&p[2..]).trim_matches('"').to_string()];
+                for q in &parts[i + 1..] {
+                    fs.push(tts_string(q).trim_matches('"').to_string());
+                }
+                features = Some(fs);
+                break;
+            }
+            kv.insert(key, norm(&tts_string(&p[2..])));
+        }
+        i += 1;
+    }
+    Some((kv, features))
+}
+
+pub fn collect_exports(src: &Source, out: &mut Output) -> Vec<ExportRow> {
+    let mut rows = vec![];
+    for it in &src.file.items {
+        if let syn::Item::Mod(m) = it {
+            let cfg = cfg_of_attrs(&m.attrs);
+            if let Some((_, items)) = &m.content {
+                for ii in items {
+                    if let syn::Item::Macro(im) = ii {
+                        let name = im.mac.path.segments.last().map(|s| s.ident.to_string()).unwrap_or_default();
+                        if !name.starts_with("export_") {
+                            continue;
+                        }
+                        match parse_export_invocation(&im.mac) {
+                            Some((kv, features)) => {
+                                let get = |k: &str| kv.get(k).cloned().unwrap_or_default();
+                                let row = ExportRow {
+                                    mac: name.clone(),
+                                    ty: get("ty"),
+                                    reg: get("register"),
+                                    op: get("op"),
+                                    xconst: get("xconst"),
+                                    xany: get("xany"),
+                                    features,
+                                    module: m.ident.to_string(),
+                                    module_cfg: cfg.clone(),
+                                    file: src.rel.clone(),
+                                    line: im.span().start().line,
+                                };
+                                if row.ty.is_empty() || row.reg.is_empty() || row.op.is_empty() || row.xconst.is_empty() || row.xany.is_empty() {
+                                    out.errors.push(format!("{}:{}: incomplete `{name}!` invocation", src.rel, row.line));
+                                }
+                                rows.push(row);
+                            },
+                            None => out.errors.push(format!("{}: cannot parse `{name}!` invocation", src.rel)),
+                        }
+                    }
+                }
+            }
+        }
+    }
+    rows
+}
+
+// --------------------------------------------------------------------------- export macro arms
+
+struct ArmFn {
+    name_var: String,
+    has_target_feature: bool,
+    const_dims: bool,
+    params: Vec<(String, String)>,
+    callee: String,
+    type_args: Vec<String>,
+    call_args: Vec<String>,
+}
+
+/// scan a macro arm body for `pub unsafe fn $name <..>? ( params ) -> ret? { $op::<..>(args) }`
+fn scan_arm_fns(body: &TokenStream) -> Vec<ArmFn> {
+    let tts: Vec<TokenTree> = body.clone().into_iter().collect();
+    let mut fns = vec![];
+    let mut i = 0;
+    let mut attr_start = 0;
+    while i < tts.len() {
+        if let TokenTree::Ident(id) = &tts[i] {
+            if id == "fn" {
+                let attrs = tts_string(&tts[attr_start..i]);
+                let has_tf = attrs.contains("target_feature");
+                // name
+                let mut j = i + 1;
+                let mut name_var = String::new();
+                if let Some(TokenTree::Punct(p)) = tts.get(j) {
+                    if p.as_char() == '$' {
+                        if let Some(TokenTree::Ident(n)) = tts.get(j + 1) {
+                            name_var = n.to_string();
+                        }
+                        j += 2;
+                    }
+                }
+                // generics up to the parameter group
+                let mut gen = vec![];
+                while j < tts.len() {
+                    if let TokenTree::Group(g) = &tts[j] {
+                        if g.delimiter() == Delimiter::Parenthesis {
+                            break;
+                        }
+                    }
+                    gen.push(tts[j].clone());
+                    j += 1;
+                }
+                let const_dims = norm(&tts_string(&gen)).contains("constDIMS:usize");
+                let mut params = vec![];
+                if let Some(TokenTree::Group(g)) = tts.get(j) {
+                    for p in split_commas(g.stream()) {
+                        let s = tts_string(&p);
+                        if let Some((n, t)) = s.split_once(':') {
+                            params.push((norm(n), norm(t)));
+                        }
+                    }
+                }
+                // body
+                let mut k = j + 1;
+                while k < tts.len() {
+                    if let TokenTree::Group(g) = &tts[k] {
+                        if g.delimiter() == Delimiter::Brace {
+                            break;
+                        }
+                    }
+                    k += 1;
+                }
+                let mut callee = String::new();
+                let mut type_args = vec![];
+                let mut call_args = vec![];
+                if let Some(TokenTree::Group(g)) = tts.get(k) {
+                    let b: Vec<TokenTree> = g.stream().into_iter().collect();
+                    // callee tokens up to `::<` / paren
+                    let mut x = 0;
+                    let mut head = vec![];
+                    while x < b.len() {
+                        match &b[x] {
+                            TokenTree::Punct(p) if p.as_char() == '<' => break,
+                            TokenTree::Group(_) => break,
+                            t => head.push(t.clone()),
+                        }
+                        x += 1;
+                    }
+                    callee = norm(&tts_string(&head)).trim_end_matches("::").to_string();
+                    let mut ta = vec![];
+                    if let Some(TokenTree::Punct(p)) = b.get(x) {
+                        if p.as_char() == '<' {
+                            x += 1;
+                            while x < b.len() {
+                                if let TokenTree::Punct(p) = &b[x] {
+                                    if p.as_char() == '>' {
+                                        x += 1;
+                                        break;
+                                    }
+                                }
+                                ta.push(b[x].clone());
+                                x += 1;
+                            }
+                        }
+                    }
+                    type_args = split_commas(ta.into_iter().collect()).iter().map(|v| norm(&tts_string(v))).collect();
+                    if let Some(TokenTree::Group(ag)) = b.get(x) {
+                        call_args = split_commas(ag.stream()).iter().map(|v| norm(&tts_string(v))).collect();
+                    }
+                    if x + 1 < b.len() {
+                        // anything after the call makes the arm something else than a plain forwarder
+                        callee.push_str("#trailing");
+                    }
+                }
+                fns.push(ArmFn { name_var, has_target_feature: has_tf, const_dims, params, callee, type_args, call_args });
+                i = k + 1;
+                attr_start = i;
+                continue;
+            }
+        }
+        i += 1;
+    }
+    fns
+}
+
+fn export_macro_arms(src: &Source, out: &mut Output, rows: &mut Vec<String>) {
+    for it in &src.file.items {
+        if let syn::Item::Macro(m) = it {
+            if !m.mac.path.is_ident("macro_rules") {
+                continue;
+            }
+            let name = m.ident.as_ref().map(|i| i.to_string()).unwrap_or_default();
+            if !name.starts_with("export_") {
+                continue;
+            }
+            for (k, arm) in macro_arms(m).iter().enumerate() {
+                let pv = pattern_vars(&arm.pattern);
+                let with_features = pv.iter().any(|v| v == "feat");
+                let fns = scan_arm_fns(&arm.body);
+                if fns.len() != 2 {
+                    out.errors.push(format!("{}: arm {k} of `{name}!` does not define exactly two functions", src.rel));
+                }
+                for f in fns {
+                    rows.push(format!(
+                        "{{ macro_ := {}, withFeatures := {}, nameVar := {}, hasTargetFeature := {}, constDims := {}, params := {}, callee := {}, typeArgs := {}, callArgs := {} }}",
+                        lstr(&name),
+                        with_features,
+                        lstr(&f.name_var),
+                        f.has_target_feature,
+                        f.const_dims,
+                        llist(&f.params.iter().map(|(n, t)| format!("({}, {})", lstr(n), lstr(t))).collect::<Vec<_>>()),
+                        lstr(&f.callee),
+                        lstrs(&f.type_args),
+                        lstrs(&f.call_args),
+                    ));
+                }
+            }
+        }
+    }
+}
+
+// --------------------------------------------------------------------------- safe wrappers
+
+fn norm_len(e: &syn::Expr) -> String {
+    let s = norm(&tok(e));
+    if let Some(x) = s.strip_suffix(".len()") {
+        format!("len {x}")
+    } else {
+        s
+    }
+}
+
+struct SafeFn {
+    name_var: String,
+    const_dims: bool,
+    params: Vec<(String, String)>,
+    returns: bool,
+    asserts: Vec<(String, String)>,
+    slots: Vec<(String, String, bool, Vec<String>)>,
+    other_stmts: usize,
+}
+
+fn parse_dispatch_invocation(ts: TokenStream) -> Vec<(String, String, bool, Vec<String>)> {
+    // label = fn [::<DIMS>] => ( args )
+    let tts: Vec<TokenTree> = ts.into_iter().collect();
+    let mut slots = vec![];
+    let mut i = 0;
+    while i < tts.len() {
+        if let (Some(TokenTree::Ident(label)), Some(TokenTree::Punct(eq))) = (tts.get(i), tts.get(i + 1)) {
+            if eq.as_char() == '=' {
+                let mut j = i + 2;
+                let mut f = vec![];
+                while j < tts.len() {
+                    if let TokenTree::Punct(p) = &tts[j] {
+                        if p.as_char() == '=' {
+                            if let Some(TokenTree::Punct(q)) = tts.get(j + 1) {
+                                if q.as_char() == '>' {
+                                    break;
+                                }
+                            }
+                        }
+                    }
+                    f.push(tts[j].clone());
+                    j += 1;
+                }
+                let fs = norm(&tts_string(&f));
+                let (fname, dims) = match fs.split_once("::<") {
+                    Some((n, rest)) => (n.to_string(), rest.trim_end_matches('>') == "DIMS"),
+                    None => (fs.clone(), false),
+                };
+                let mut args = vec![];
+                if let Some(TokenTree::Group(g)) = tts.get(j + 2) {
+                    args = split_commas(g.stream()).iter().map(|v| norm(&tts_string(v))).collect();
+                }
+                slots.push((label.to_string(), fname, dims, args));
+                i = j + 3;
+                continue;
+            }
+        }
+        i += 1;
+    }
+    slots
+}
+
+fn find_dispatch(stmts: &[syn::Stmt], f: &mut SafeFn) {
+    for s in stmts {
+        match s {
+            syn::Stmt::Macro(m) => {
+                let n = m.mac.path.segments.last().map(|s| s.ident.to_string()).unwrap_or_default();
+                if n == "assert_eq" {
+                    if let Ok(args) = m.mac.parse_body_with(
+                        syn::punctuated::Punctuated::<syn::Expr, syn::Token![,]>::parse_terminated,
+                    ) {
+                        if args.len() >= 2 {
+                            f.asserts.push((norm_len(&args[0]), norm_len(&args[1])));
+                            continue;
+                        }
+                    }
+                    f.other_stmts += 1;
+                } else if n == "dispatch" {
+                    f.slots = parse_dispatch_invocation(m.mac.tokens.clone());
+                } else {
+                    f.other_stmts += 1;
+                }
+            },
+            syn::Stmt::Expr(syn::Expr::Unsafe(u), _) => find_dispatch(&u.block.stmts, f),
+            syn::Stmt::Expr(syn::Expr::Macro(m), _) => {
+                let n = m.mac.path.segments.last().map(|s| s.ident.to_string()).unwrap_or_default();
+                if n == "dispatch" {
+                    f.slots = parse_dispatch_invocation(m.mac.tokens.clone());
+                } else {
+                    f.other_stmts += 1;
+                }
+            },
+            _ => f.other_stmts += 1,
+        }
+    }
+}
+
+struct SafeMacro {
+    name: String,
+    vars: Vec<String>,
+    fns: Vec<SafeFn>,
+}
+
+fn safe_macros(src: &Source, out: &mut Output) -> Vec<SafeMacro> {
+    let mut res = vec![];
+    for it in &src.file.items {
+        if let syn::Item::Macro(m) = it {
+            if !m.mac.path.is_ident("macro_rules") {
+                continue;
+            }
+            let name = m.ident.as_ref().map(|i| i.to_string()).unwrap_or_default();
+            if !name.starts_with("export_safe_") {
+                continue;
+            }
+            let arms = macro_arms(m);
+            if arms.len() != 1 {
+                out.errors.push(format!("{}: `{name}!` has {} arms, expected 1", src.rel, arms.len()));
+                continue;
+            }
+            let vars = pattern_vars(&arms[0].pattern);
+            let mut sub = BTreeMap::new();
+            for v in &vars {
+                let rep: TokenStream = match v.as_str() {
+                    "desc" => "\"d\"".parse().unwrap(),
+                    "t" => "T__".parse().unwrap(),
+                    other => format!("V__{other}").parse().unwrap(),
+                };
+                sub.insert(v.clone(), rep);
+            }
+            let body = substitute(arms[0].body.clone(), &sub);
+            let file: syn::File = match syn::parse2(body) {
+                Ok(f) => f,
+                Err(e) => {
+                    out.errors.push(format!("{}: cannot parse body of `{name}!`: {e}", src.rel));
+                    continue;
+                },
+            };
+            let mut fns = vec![];
+            for it in &file.items {
+                if let syn::Item::Fn(f) = it {
+                    let mut sf = SafeFn {
+                        name_var: f.sig.ident.to_string().trim_start_matches("V__").to_string(),
+                        const_dims: f.sig.generics.params.iter().any(|p| matches!(p, syn::GenericParam::Const(c) if c.ident == "DIMS")),
+                        params: f
+                            .sig
+                            .inputs
+                            .iter()
+                            .filter_map(|a| if let syn::FnArg::Typed(pt) = a { Some((norm(&tok(&pt.pat)), norm(&tok(&pt.ty)))) } else { None })
+                            .collect(),
+                        returns: !matches!(f.sig.output, syn::ReturnType::Default),
+                        asserts: vec![],
+                        slots: vec![],
+                        other_stmts: 0,
+                    };
+                    find_dispatch(&f.block.stmts, &mut sf);
+                    for s in sf.slots.iter_mut() {
+                        s.1 = s.1.trim_start_matches("V__").to_string();
+                    }
+                    fns.push(sf);
+                }
+            }
+            res.push(SafeMacro { name, vars, fns });
+        }
+    }
+    res
+}
+
+// --------------------------------------------------------------------------- dispatch! macro
+
+fn dispatch_macro(src: &Source, out: &mut Output, text: &mut String) {
+    for it in &src.file.items {
+        if let syn::Item::Macro(m) = it {
+            if m.ident.as_ref().map(|i| i == "dispatch").unwrap_or(false) {
+                let arms = macro_arms(m);
+                if arms.len() != 1 {
+                    out.errors.push(format!("{}: dispatch! has {} arms", src.rel, arms.len()));
+                    return;
+                }
+                // pattern: label order and label -> fn metavariable
+                let mut labels: Vec<(String, String, bool)> = vec![];
+                let pt: Vec<TokenTree> = arms[0].pattern.clone().into_iter().collect();
+                let mut i = 0;
+                fn label_of(ts: &[TokenTree]) -> Option<(String, String)> {
+                    // label = $var:expr => ...
+                    if let (Some(TokenTree::Ident(l)), Some(TokenTree::Punct(_)), Some(TokenTree::Punct(d)), Some(TokenTree::Ident(v))) =
+                        (ts.first(), ts.get(1), ts.get(2), ts.get(3))
+                    {
+                        if d.as_char() == '$' {
+                            return Some((l.to_string(), v.to_string()));
+                        }
+                    }
+                    None
+                }
+                while i < pt.len() {
+                    match &pt[i] {
+                        TokenTree::Punct(p) if p.as_char() == '$' => {
+                            if let Some(TokenTree::Group(g)) = pt.get(i + 1) {
+                                let inner: Vec<TokenTree> = g.stream().into_iter().collect();
+                                if let Some((l, v)) = label_of(&inner) {
+                                    labels.push((l, v, true));
+                                }
+                                i += 2;
+                                continue;
+                            }
+                        },
+                        TokenTree::Ident(_) => {
+                            if let Some((l, v)) = label_of(&pt[i..]) {
+                                labels.push((l, v, false));
+                                break;
+                            }
+                        },
+                        _ => {},
+                    }
+                    i += 1;
+                }
+                // body: inner brace group
+                let mut body: Vec<TokenTree> = arms[0].body.clone().into_iter().collect();
+                if body.len() == 1 {
+                    if let TokenTree::Group(g) = &body[0] {
+                        body = g.stream().into_iter().collect();
+                    }
+                }
+                let mut cands: Vec<String> = vec![];
+                let mut i = 0;
+                let mut fallback_var = String::new();
+                let mut trailing = 0usize;
+                while i < body.len() {
+                    match &body[i] {
+                        TokenTree::Punct(p) if p.as_char() == '$' => {
+                            if let Some(TokenTree::Group(g)) = body.get(i + 1) {
+                                let inner: Vec<TokenTree> = g.stream().into_iter().collect();
+                                // # [cfg(..)] if cond { return $fn(..); }
+                                let mut cfg = None;
+                                let mut cond = vec![];
+                                let mut fnvar = String::new();
+                                let mut returns = false;
+                                let mut k = 0;
+                                while k < inner.len() {
+                                    match &inner[k] {
+                                        TokenTree::Punct(p) if p.as_char() == '#' => {
+                                            if let Some(TokenTree::Group(ag)) = inner.get(k + 1) {
+                                                let ats: Vec<TokenTree> = ag.stream().into_iter().collect();
+                                                if let (Some(TokenTree::Ident(c)), Some(TokenTree::Group(cg))) = (ats.first(), ats.get(1)) {
+                                                    if c == "cfg" {
+                                                        cfg = parse_cfg_macro(cg.stream());
+                                                    }
+                                                }
+                                            }
+                                            k += 2;
+                                            continue;
+                                        },
+                                        TokenTree::Ident(id) if id == "if" => {
+                                            k += 1;
+                                            while k < inner.len() {
+                                                if let TokenTree::Group(bg) = &inner[k] {
+                                                    if bg.delimiter() == Delimiter::Brace {
+                                                        let bts: Vec<TokenTree> = bg.stream().into_iter().collect();
+                                                        if let Some(TokenTree::Ident(r)) = bts.first() {
+                                                            returns = r == "return";
+                                                        }
+                                                        for (x, t) in bts.iter().enumerate() {
+                                                            if let TokenTree::Punct(p) = t {
+                                                                if p.as_char() == '$' && fnvar.is_empty() {
+                                                                    if let Some(TokenTree::Ident(v)) = bts.get(x + 1) {
+                                                                        fnvar = v.to_string();
+                                                                    }
+                                                                }
+                                                            }
+                                                        }
+                                                        break;
+                                                    }
+                                                }
+                                                cond.push(inner[k].clone());
+                                                k += 1;
+                                            }
+                                        },
+                                        _ => {},
+                                    }
+                                    k += 1;
+                                }
+                                let cond_s = norm(&tts_string(&cond));
+                                // guards: conjunction of `$crate::dispatch::is_X_available()`
+                                let mut guards = vec![];
+                                let mut pure_conj = true;
+                                for part in cond_s.split("&&") {
+                                    let p = part.trim_start_matches("$crate::dispatch::");
+                                    if p.starts_with("is_") && p.ends_with("_available()") {
+                                        guards.push(p.trim_end_matches("()").to_string());
+                                    } else {
+                                        pure_conj = false;
+                                    }
+                                }
+                                let label = labels.iter().find(|(_, v, _)| *v == fnvar).map(|x| x.0.clone()).unwrap_or_default();
+                                cands.push(format!(
+                                    "{{ label := {}, cfg := {}, guards := {}, condIsGuardConjunction := {}, returnsCall := {} }}",
+                                    lstr(&label),
+                                    cfg.as_ref().map(|c| c.lean_data()).unwrap_or_else(|| "(.all [])".into()),
+                                    lstrs(&guards),
+                                    pure_conj,
+                                    returns
+                                ));
+                                i += 3; // $ ( .. ) ?
+                                continue;
+                            } else if let Some(TokenTree::Ident(v)) = body.get(i + 1) {
+                                if fallback_var.is_empty() {
+                                    fallback_var = v.to_string();
+                                    i += 2;
+                                    // the argument group follows
+                                    if let Some(TokenTree::Group(_)) = body.get(i) {
+                                        i += 1;
+                                    }
+                                    continue;
+                                }
+                            }
+                        },
+                        _ => trailing += 1,
+                    }
+                    i += 1;
+                }
+                let fb_label = labels.iter().find(|(_, v, _)| *v == fallback_var).map(|x| x.0.clone()).unwrap_or_default();
+                text.push_str(&format!("def dispatchCandidates : List DispatchCand := [\n  {}\n]\n", cands.join(",\n  ")));
+                text.push_str(&format!("def dispatchFallbackLabel : String := {}\n", lstr(&fb_label)));
+                text.push_str(&format!(
+                    "def dispatchPatternLabels : List (String × Bool) := {}\n",
+                    llist(&labels.iter().map(|(l, _, o)| format!("({}, {})", lstr(l), o)).collect::<Vec<_>>())
+                ));
+                text.push_str(&format!("def dispatchTrailingTokens : Nat := {trailing}\n\n"));
+                out.items.push("macro:dispatch".into());
+                return;
+            }
+        }
+    }
+    out.errors.push(format!("{}: dispatch! macro not found", src.rel));
+}
+
+// --------------------------------------------------------------------------- main entry
+
+pub fn gen_tables(root: &Path, out: &mut Output, harness_dir: &Path) {
+    let mut text = String::from("-- GENERATED by /verif/translator from /repo — do not edit.\n");
+    text.push_str("import CfavmlModel.Prim.Tables\nnamespace Cfavml\nnamespace Tables\n\n");
+
+    // exports
+    let mut all_rows: Vec<ExportRow> = vec![];
+    let mut arm_rows: Vec<String> = vec![];
+    for rel in [
+        "cfavml/src/danger/export_arithmetic_ops.rs",
+        "cfavml/src/danger/export_distance_ops.rs",
+        "cfavml/src/danger/export_min_max_sum_norm.rs",
+    ] {
+        match load(root, rel) {
+            Ok(src) => {
+                all_rows.extend(collect_exports(&src, out));
+                export_macro_arms(&src, out, &mut arm_rows);
+            },
+            Err(e) => out.errors.push(e),
+        }
+    }
+    let rows: Vec<String> = all_rows
+        .iter()
+        .map(|r| {
+            format!(
+                "{{ macro_ := {}, ty := {}, reg := {}, op := {}, xconst := {}, xany := {}, hasFeatures := {}, features := {}, module := {}, moduleCfg := {}, file := {}, line := {} }}",
+                lstr(&r.mac),
+                lstr(&r.ty),
+                lstr(&r.reg),
+                lstr(&r.op),
+                lstr(&r.xconst),
+                lstr(&r.xany),
+                r.features.is_some(),
+                lstrs(r.features.as_deref().unwrap_or(&[])),
+                lstr(&r.module),
+                r.module_cfg.as_ref().map(|c| c.lean_data()).unwrap_or_else(|| "(.all [])".into()),
+                lstr(&r.file),
+                r.line
+            )
+        })
+        .collect();
+    text.push_str(&chunked("exports", "ExportRow", &rows));
+    text.push('\n');
+    text.push_str(&chunked("exportArms", "ExportArmFn", &arm_rows));
+    text.push('\n');
+    out.items.push(format!("table:exports:{}", all_rows.len()));
+
+    // safe wrappers
+    let mut safe_arm_rows: Vec<String> = vec![];
+    let mut safe_rows: Vec<String> = vec![];
+    let mut safe_list: Vec<(String, String, String, String, BTreeMap<String, String>)> = vec![];
+    for rel in [
+        "cfavml/src/safe_arithmetic_ops.rs",
+        "cfavml/src/safe_distance_ops.rs",
+        "cfavml/src/safe_min_max_sum_ops.rs",
+        "cfavml/src/safe_norm_ops.rs",
+    ] {
+        let src = match load(root, rel) {
+            Ok(s) => s,
+            Err(e) => {
+                out.errors.push(e);
+                continue;
+            },
+        };
+        let macs = safe_macros(&src, out);
+        for sm in &macs {
+            for f in &sm.fns {
+                safe_arm_rows.push(format!(
+                    "{{ macro_ := {}, nameVar := {}, constDims := {}, params := {}, returnsValue := {}, asserts := {}, slots := {}, otherStmts := {} }}",
+                    lstr(&sm.name),
+                    lstr(&f.name_var),
+                    f.const_dims,
+                    llist(&f.params.iter().map(|(n, t)| format!("({}, {})", lstr(n), lstr(t))).collect::<Vec<_>>()),
+                    f.returns,
+                    llist(&f.asserts.iter().map(|(a, b)| format!("({}, {})", lstr(a), lstr(b))).collect::<Vec<_>>()),
+                    llist(
+                        &f.slots
+                            .iter()
+                            .map(|(l, v, d, a)| format!("{{ label := {}, fnVar := {}, passesDims := {}, args := {} }}", lstr(l), lstr(v), d, lstrs(a)))
+                            .collect::<Vec<_>>()
+                    ),
+                    f.other_stmts
+                ));
+            }
+        }
+        // invocations
+        for it in &src.file.items {
+            if let syn::Item::Macro(im) = it {
+                let name = im.mac.path.segments.last().map(|s| s.ident.to_string()).unwrap_or_default();
+                if let Some(sm) = macs.iter().find(|m| m.name == name) {
+                    let parts = split_commas(im.mac.tokens.clone());
+                    let mut bind: BTreeMap<String, String> = BTreeMap::new();
+                    // `key = value` parts bind $desc/$t/$const_name/$any_name in order, the rest are positional
+                    let mut vals: Vec<String> = vec![];
+                    for p in &parts {
+                        let s = tts_string(p);
+                        let is_kv = p.len() >= 3 && matches!(&p[1], TokenTree::Punct(q) if q.as_char() == '=');
+                        vals.push(if is_kv { norm(&tts_string(&p[2..])) } else { norm(&s) });
+                    }
+                    if vals.len() != sm.vars.len() {
+                        out.errors.push(format!(
+                            "{rel}:{}: `{name}!` invocation has {} arguments, the macro takes {}",
+                            im.span().start().line,
+                            vals.len(),
+                            sm.vars.len()
+                        ));
+                        continue;
+                    }
+                    for (v, val) in sm.vars.iter().zip(vals.iter()) {
+                        bind.insert(v.clone(), val.clone());
+                    }
+                    let ty = bind.get("t").cloned().unwrap_or_default();
+                    let cn = bind.get("const_name").cloned().unwrap_or_default();
+                    let an = bind.get("any_name").cloned().unwrap_or_default();
+                    let b: Vec<String> = sm
+                        .vars
+                        .iter()
+                        .filter(|v| !["desc", "t", "const_name", "any_name"].contains(&v.as_str()))
+                        .map(|v| format!("({}, {})", lstr(v), lstr(&bind[v])))
+                        .collect();
+                    safe_rows.push(format!(
+                        "{{ macro_ := {}, ty := {}, constName := {}, anyName := {}, bindings := {}, file := {}, line := {} }}",
+                        lstr(&name),
+                        lstr(&ty),
+                        lstr(&cn),
+                        lstr(&an),
+                        llist(&b),
+                        lstr(rel),
+                        im.span().start().line
+                    ));
+                    safe_list.push((name.clone(), ty, cn, an, bind));
+                }
+            }
+        }
+    }
+    text.push_str(&format!("def safeArms : List SafeArmFn := [\n  {}\n]\n\n", safe_arm_rows.join(",\n  ")));
+    text.push_str(&chunked("safeRows", "SafeRow", &safe_rows));
+    text.push('\n');
+    out.items.push(format!("table:safeRows:{}", safe_rows.len()));
+
+    // dispatch
+    match load(root, "cfavml/src/dispatch.rs") {
+        Ok(src) => {
+            dispatch_macro(&src, out, &mut text);
+            // the is_*_available functions as executable definitions
+            let reg = Registry::default();
+            let mut dtext = String::from("-- GENERATED by /verif/translator from /repo — do not edit.\nimport CfavmlModel.Prim.Scalar\nset_option linter.unusedVariables false\nnamespace Cfavml\n\n");
+            let mut avail = vec![];
+            for it in &src.file.items {
+                if let syn::Item::Fn(f) = it {
+                    let n = f.sig.ident.to_string();
+                    if !n.starts_with("is_") {
+                        continue;
+                    }
+                    let cfg = cfg_of_attrs(&f.attrs);
+                    let spec = FnSpec {
+                        lean_name: n.clone(),
+                        sig: &f.sig,
+                        block: &f.block,
+                        file: src.rel.clone(),
+                        tyenv: TyEnv::default(),
+                        elem: None,
+                        self_struct: None,
+                        self_mode: SelfMode::None,
+                        extra_params: vec![],
+                        implicit: vec![],
+                        pure_def: false,
+                        doc: format!("{}: `{n}`", src.rel),
+                    };
+                    let r = translate_fn(&reg, spec);
+                    out.errors.extend(r.errors);
+                    out.items.push(format!("dispatch:{n}"));
+                    dtext.push_str(&r.text);
+                    dtext.push('\n');
+                    avail.push(format!(
+                        "({}, {})",
+                        lstr(&n),
+                        cfg.as_ref().map(|c| c.lean_data()).unwrap_or_else(|| "(.all [])".into())
+                    ));
+                }
+            }
+            dtext.push_str("end Cfavml\n");
+            out.files.insert("Dispatch.lean".into(), dtext);
+            text.push_str(&format!("def availabilityFns : List (String × Cfg) := {}\n\n", llist(&avail)));
+        },
+        Err(e) => out.errors.push(e),
+    }
+
+    text.push_str("end Tables\nend Cfavml\n");
+    out.files.insert("Tables.lean".into(), text);
+
+    crate::refs::gen_refs(root, out);
+    crate::harness_gen::gen_harness(&all_rows, &safe_list, harness_dir, out);
+    let _ = (fs::metadata(root), BTreeSet::<String>::new());
+}
+
+// --------------------------------------------------------------------------- impl call graph
+
+pub fn gen_impl_tables(infos: &[ImplInfo], out: &mut Output) {
+    let mut rows = vec![];
+    for i in infos {
+        for (m, ins) in &i.intrinsics {
+            out.used_intrinsics.extend(ins.iter().cloned());
+            let calls = i.calls.get(m).cloned().unwrap_or_default();
+            rows.push(format!(
+                "{{ reg := {}, ty := {}, method := {}, isOverride := {}, intrinsics := {}, calls := {} }}",
+                lstr(&i.strukt),
+                lstr(&i.elem),
+                lstr(m),
+                i.overrides.contains(m),
+                lstrs(&ins.iter().cloned().collect::<Vec<_>>()),
+                llist(&calls.iter().map(|(s, e, mm)| format!("({}, {}, {})", lstr(s), lstr(e), lstr(mm))).collect::<Vec<_>>())
+            ));
+        }
+    }
+    let mut text = String::from("-- GENERATED by /verif/translator from /repo — do not edit.\nimport CfavmlModel.Prim.Tables\nnamespace Cfavml\nnamespace Tables\n\n");
+    text.push_str(&chunked("implMethods", "ImplMethodRow", &rows));
+    text.push_str("\nend Tables\nend Cfavml\n");
+    out.files.insert("ImplTables.lean".into(), text);
+    let _ = infos.iter().map(|i| (&i.reg_ty, &i.file)).count();
+}
